@@ -2725,7 +2725,7 @@ class TrackFragmentRunBox(FullBox):
     sample_size_present: ClassVar[int] = 0x000200  # sample has its own size
     sample_flags_present: ClassVar[int] = 0x000400  # sample has its own flags
     sample_composition_time_offsets_present: ClassVar[int] = 0x000800  # sample has a composition time offset
-    MAX_SAMPLE_COUNT: ClassVar[int] = 1 << 20  # sanity limit when no per-sample fields are present
+    MAX_SAMPLE_COUNT: ClassVar[int] = 1 << 16  # sanity limit when no per-sample fields are present
 
     OBJECT_FIELDS = {
         'samples': ListOf(TrackSample),
@@ -2757,7 +2757,7 @@ class TrackFragmentRunBox(FullBox):
         remaining = rv["position"] + rv["size"] - src.tell()
         if (
                 (4 * per_sample_fields * sample_count) > max(0, remaining) or
-                sample_count > clz.MAX_SAMPLE_COUNT):
+                (per_sample_fields == 0 and sample_count > clz.MAX_SAMPLE_COUNT)):
             # a corrupt sample_count would otherwise create billions of samples
             raise ValueError(
                 f'Invalid sample_count {sample_count} in trun box of {rv["size"]} bytes')
